@@ -400,7 +400,9 @@ def _centuries_case(ctx, rounds) -> F.Outcome:
     from zorg.storage.sql._zid_manager import ZIDManager
 
     dates = [dt.date(2024, 3, 5), dt.date(2124, 3, 5), dt.date(2024, 3, 6), dt.date(2224, 3, 5),
-             dt.date(2999, 12, 31), dt.date(2099, 12, 31), dt.date(2000, 1, 1), dt.date(2100, 1, 1)]
+             dt.date(2999, 12, 31), dt.date(2099, 12, 31), dt.date(2000, 1, 1), dt.date(2100, 1, 1),
+             # days whose ISO week-based year is not their calendar year
+             dt.date(2024, 12, 30), dt.date(2021, 1, 1), dt.date(2027, 1, 3), dt.date(2025, 12, 29)]
     zdir = H.new_dir("zy")
     out = F.Outcome(n_evals=0)
     try:
@@ -521,6 +523,70 @@ def _writeback_case(ctx, kind_prefix: str) -> F.Outcome:
     return out
 
 
+_CMD_EVENTS = ("n", "C", "R", "X")
+
+
+def _commands_case(ctx, hist) -> F.Outcome:
+    """(d) Command-level histories on one real directory: after `n` (a ZID-less note dated today is
+    appended to a page), `C` (db create), `R` (db reindex) and `X` (the user discards the database
+    file -- the index is derived data and `db create` deletes it itself) in any order, no ZID may be
+    written on two notes.  The directory starts indexed, with two ZIDs of today handed out."""
+    from mc.core import zdir as Z
+
+    out = F.Outcome()
+    day = H.rotate(_DATE_POOLS, ctx.seed)[0][0]
+    H.freeze(day)
+    zd = Z.make_zdir({"a.zo": "# A\n\n- first note of the day\no second note of the day\n",
+                      "sub/b.zo": "# B\n\n- 240101#B1 an old note\n"}, "c07c")
+    problems = []
+    exits = []
+    try:
+        r = Z.db_create(zd, day)
+        if not Z.cli_ok(r):
+            raise H.HarnessError("C07 commands: initial db create failed " + r.err[-300:])
+        k = 0
+        for ev in hist:
+            if ev == "n":
+                k += 1
+                page = zd / ("a.zo" if k % 2 else "sub/b.zo")
+                page.write_text(page.read_text() + f"- note number {k} added later the same day\n")
+            elif ev == "X":
+                db = zd / ".zorg" / "zorg.db"
+                if db.exists():
+                    db.unlink()
+            else:
+                r = Z.db_create(zd, day) if ev == "C" else Z.db_reindex(zd, day)
+                exits.append([ev, r.status, r.value if r.status == "ok" else None])
+        # what the files say, whatever the commands reported
+        seen: dict = {}
+        for rel, text in sorted(Z.snapshot(zd, with_meta=False).items()):
+            res = zo.compile_text(text, name=rel)
+            if res["exc"] or res["nsyntax"]:
+                problems.append(("page-no-longer-valid", {"page": rel, "text": text}))
+                continue
+            for n in res["notes"]:
+                z = n["zid"]
+                if z is None:
+                    continue
+                if not ZM.well_formed(z):
+                    problems.append(("malformed-zid-in-files", {"zid": z, "page": rel}))
+                if z in seen:
+                    problems.append(("same-zid-on-two-notes", {"zid": z, "first": seen[z], "second": [rel, n["line"]]}))
+                seen.setdefault(z, [rel, n["line"]])
+        out.obs = H.digest([list(hist), exits, sorted(seen)])
+        out.nontrivial = H.digest(["cmd", list(hist)])
+        out.transitions = len(hist)
+        if problems:
+            out.ok = False
+            out.sig = "commands:" + problems[0][0]
+            out.detail = {"history": list(hist), "events": {"n": "append a ZID-less note", "C": "db create", "R": "db reindex",
+                                                            "X": "delete .zorg/zorg.db"},
+                          "command_results": exits, "problem": problems[0][1], "files": Z.snapshot(zd, with_meta=False)}
+    finally:
+        Z.drop(zd)
+    return out
+
+
 def _params(ctx):
     return {"bfs_depth": 4 if ctx.quick else 6,
             "suffix_set": "all 2-char + carry neighbourhoods of 3-char" if ctx.quick else "all 135252"}
@@ -532,6 +598,11 @@ def _cases(ctx):
     cases = [["chain"], ["alloc_chain"], ["centuries", 3]]
     for kp in ("-", "o", "o P3", "x", "x P0", "~", "<", "< P9", ">", "- 2024-02-03", "o P2 2024-02-03"):
         cases.append(["writeback", kp])
+    import itertools as _it
+    for n in range(1, (3 if ctx.quick else 4) + 1):
+        for hist in _it.product(_CMD_EVENTS, repeat=n):
+            if "n" in hist and hist[-1] in "CR":
+                cases.append(["commands", list(hist)])
     for i in range(len(_initial_contents(dates))):
         cases.append(["bfs", i, p["bfs_depth"]])
     for n in range(1, 13 if ctx.quick else 25):
@@ -566,6 +637,8 @@ def _run_case(ctx, case) -> F.Outcome:
         return _centuries_case(ctx, case[1])
     if kind == "writeback":
         return _writeback_case(ctx, case[1])
+    if kind == "commands":
+        return _commands_case(ctx, case[1])
     raise H.HarnessError(f"bad case {case!r}")
 
 
@@ -597,7 +670,9 @@ def run(ctx: F.Ctx):
             "contents (every carry/skip point), each history executed on a fresh real "
             "directory (newproc = forked process), states deduplicated on (persisted map, "
             "set of returned ZIDs, manager age); (c) round-robin allocation over n = 1..12 (thorough: "
-            "24) distinct dates, three rounds, a fresh manager per allocation. Every evaluation is distinct by construction."
+            "24) distinct dates, three rounds, a fresh manager per allocation; (d) every history of length <= 3 (thorough: 4) over "
+            "{append a ZID-less note dated today, db create, db reindex, delete the database file} that adds a note and ends with a command, "
+            "on a real indexed directory: no ZID written on two notes, every ZID well formed, whatever the commands report. Every evaluation is distinct by construction."
         ),
         "bounds": {**p, "suffixes_checked": nsuf, "initial_contents": 9, "events": _EVENTS,
                    "dates": [d.isoformat() for d in H.rotate(_DATE_POOLS, ctx.seed)[0]]},
